@@ -77,6 +77,7 @@ func init() {
 		Blank:    func() any { return &C19Scenario{} },
 		Run:      func(sc any, tr *kit.Trace) *kit.Result { return runC19(sc.(*C19Scenario), tr) },
 		Shrink:   shrinkC19,
+		Warmup:   true,
 		PerChunk: 40,
 		Quick:    3000,
 		Thorough: 120000,
@@ -201,9 +202,112 @@ type c19Up struct {
 	toGeo bool
 }
 
+// c19Denials is the second phase: shared synthesised denials (RFC 8020 subtree cuts) and
+// queries that carry ECS or CD, through both ingress paths. A signed zone denies nx.sq.test.
+// to a plain client (the cut becomes shared state), then gains below.nx.sq.test.; a query
+// for that name carrying ECS or CD must be resolved, not answered from the cut. Conversely
+// a denial obtained by an ECS-carrying query must not become a cut for plain clients.
+func c19Denials(sc *C19Scenario, tr *kit.Trace, res *kit.Result) {
+	spec := &world.Spec{
+		Zones: []world.ZoneSpec{
+			{Name: ".", Signed: true, Alg: dns.ED25519, KeyIdx: 1, NSNames: []string{"a.root-servers.net."}, Addrs: []string{"198.41.0.4"}},
+			{Name: "test.", Signed: true, Secure: true, Alg: dns.ED25519, KeyIdx: 2, NSNames: []string{"ns.test."}, Addrs: []string{"192.0.9.1"}},
+			{Name: "sq.test.", Signed: true, Secure: true, Alg: dns.ED25519, KeyIdx: 4, NSNames: []string{"ns.sq.test."}, Addrs: []string{"192.0.9.8"},
+				Records: []string{"keep.sq.test. 300 IN A 10.9.9.1", "zz.sq.test. 300 IN A 10.9.9.2"}},
+			// a second zone for the "creates" half: nothing of it is known before the ECS/CD query
+			{Name: "sr.test.", Signed: true, Secure: true, Alg: dns.ED25519, KeyIdx: 5, NSNames: []string{"ns.sr.test."}, Addrs: []string{"192.0.9.9"},
+				Records: []string{"keep.sr.test. 300 IN A 10.9.8.1", "zz.sr.test. 300 IN A 10.9.8.2"}},
+		},
+		Cfg: c19Spec(sc).Cfg,
+	}
+	g, err := world.NewIng(spec, world.IngSpec{Workers: 16, Queue: 16, Sockets: 1, Spare: 16}, sc.Seed, tr)
+	if err != nil {
+		res.Fail("C19/harness", "listener: %v", err)
+		return
+	}
+	defer g.Close()
+	kit.SleepSettle(3 * time.Second)
+	rng := kit.NewRNG(sc.Seed ^ 0xdead)
+	id := uint16(7000)
+	ask := func(name string, ecs, cd, wire bool) *dns.Msg {
+		id++
+		q := new(dns.Msg)
+		q.SetQuestion(name, dns.TypeA)
+		q.Id = id
+		q.CheckingDisabled = cd
+		q.SetEdns0(1232, false)
+		if ecs {
+			o := q.IsEdns0()
+			o.Option = append(o.Option, &dns.EDNS0_SUBNET{Code: dns.EDNS0SUBNET, Family: 1, SourceNetmask: 24, Address: net.IPv4(203, 0, 113, 0).To4()})
+		}
+		client := netip.MustParseAddrPort("10.19.0.1:41900")
+		if wire {
+			raw, _ := q.Pack()
+			before := len(g.K.Out)
+			g.Send(0, client, raw)
+			kit.SleepSettle(6 * time.Second)
+			for _, s := range g.K.Out[before:] {
+				if len(s.Data) > 2 && uint16(s.Data[0])<<8|uint16(s.Data[1]) == id {
+					m := new(dns.Msg)
+					if m.Unpack(s.Data) == nil {
+						return m
+					}
+				}
+			}
+			return nil
+		}
+		c := g.Res.Ask(client, "udp", q)
+		kit.Settle()
+		if len(c.Replies) == 1 {
+			return c.Replies[0]
+		}
+		return nil
+	}
+	z := g.World.Zones["sq.test."]
+	// consume: cut created by a plain client, then ECS/CD queries below it
+	if m := ask("nx.sq.test.", false, false, rng.Bool()); m == nil || m.Rcode != dns.RcodeNameError {
+		return // the denial itself did not come back as expected: nothing to test here
+	}
+	z.Add("below.nx.sq.test. 300 IN A 10.9.9.9")
+	for _, v := range []struct{ ecs, cd, wire bool }{{true, false, true}, {true, false, false}, {false, true, true}, {false, true, false}} {
+		m := ask("below.nx.sq.test.", v.ecs, v.cd, v.wire)
+		if m == nil {
+			continue
+		}
+		ingress := map[bool]string{true: "wire", false: "decoded"}[v.wire]
+		tr.Add("denial phase: below.nx.sq.test. ecs=%v cd=%v %s -> %s an=%d", v.ecs, v.cd, ingress, dns.RcodeToString[m.Rcode], len(m.Answer))
+		tr.Shape(fmt.Sprintf("den:%v:%v:%s:%d", v.ecs, v.cd, ingress, m.Rcode))
+		res.Probes["denial-phase-queries"]++
+		if m.Rcode == dns.RcodeNameError {
+			res.Fail("C19/shared-denial-consumed", "a %s-ingress query for below.nx.sq.test. carrying %s was answered NXDOMAIN from the subtree cut another client's query created, although the zone now holds the name: a query that carried ECS or CD must not consume shared synthesised denials\n%s",
+				ingress, map[bool]string{true: "a client-subnet option", false: "CD=1"}[v.ecs], m)
+			return
+		}
+	}
+	// create: a denial obtained by an ECS-carrying (or CD) query must not become a shared cut
+	viaCD := rng.Bool()
+	if m := ask("nx2.sr.test.", !viaCD, viaCD, rng.Bool()); m == nil || m.Rcode != dns.RcodeNameError {
+		return
+	}
+	g.World.Zones["sr.test."].Add("below.nx2.sr.test. 300 IN A 10.9.9.8")
+	wire := rng.Bool()
+	if m := ask("below.nx2.sr.test.", false, false, wire); m != nil {
+		tr.Add("denial phase: below.nx2.sr.test. plain -> %s", dns.RcodeToString[m.Rcode])
+		if m.Rcode == dns.RcodeNameError {
+			res.Fail("C19/shared-denial-created", "a plain query for below.nx2.sr.test. was answered NXDOMAIN right after the zone gained the name: the only denial in sr.test. so far was obtained by a query carrying %s, which must not create shared synthesised denials\n%s",
+				map[bool]string{true: "CD=1", false: "a client-subnet option"}[viaCD], m)
+			return
+		}
+	}
+	res.Nontrivial = true
+}
+
 func runC19(sc *C19Scenario, tr *kit.Trace) *kit.Result {
 	res := kit.NewResult()
 	kit.Bubble(func() { execC19(sc, tr, res) })
+	if res.Viol == nil && sc.Seed%3 == 0 {
+		kit.Bubble(func() { c19Denials(sc, tr, res) })
+	}
 	return res
 }
 
